@@ -46,56 +46,88 @@ def mk_cfg(kind, tol, freq, shapes, seed):
 
 
 class Model:
-    """per-block consecutive-failure counters; group step counter; refresh schedule."""
+    """per-block consecutive-failure counters; one step counter and one refresh schedule per parameter group; the
+    tolerance of a block is the one of its group's preconditioner config."""
 
     def __init__(self, cfg):
         self.cfg = cfg
         self.nb = len(cfg["shapes"])
         self.nf = [len(s) for s in cfg["shapes"]]
         self.c = [0] * self.nb
-        self.t = 0
-        self.tol = cfg["precond"][1]["tol"]
+        if cfg.get("groups"):
+            self.groups = [list(g["params"]) for g in cfg["groups"]]
+            tols = [g.get("over", {}).get("precond", cfg["precond"])[1]["tol"] for g in cfg["groups"]]
+        else:
+            self.groups = [list(range(self.nb))]
+            tols = [cfg["precond"][1]["tol"]]
+        self.gof = {b: gi for gi, g in enumerate(self.groups) for b in g}
+        self.tolb = [tols[self.gof[b]] for b in range(self.nb)]
+        self.tg = [0] * len(self.groups)
+        self.tol = self.tolb[0]
+
+    @property
+    def t(self):
+        return self.tg[0]
 
     def clone(self):
         m = Model.__new__(Model)
         m.__dict__.update(self.__dict__)
         m.c = list(self.c)
+        m.tg = list(self.tg)
         return m
 
+    def refreshing_groups(self, mask):
+        out = []
+        for gi, g in enumerate(self.groups):
+            if any(mask[b] for b in g):
+                t = self.tg[gi] + 1
+                if (t % self.cfg["freq"] == 0 and t > self.cfg["start"]) or t == self.cfg["start"]:
+                    out.append(gi)
+        return out
+
+    def refreshing_blocks(self, mask):
+        gs = self.refreshing_groups(mask)
+        return [b for b in range(self.nb) if mask[b] and self.gof[b] in gs]
+
     def will_refresh(self, mask):
-        if not any(mask):
-            return False
-        t = self.t + 1
-        return (t % self.cfg["freq"] == 0 and t > self.cfg["start"]) or t == self.cfg["start"]
+        return bool(self.refreshing_groups(mask))
+
+    def next_t(self, b, mask):
+        gi = self.gof[b]
+        return self.tg[gi] + (1 if any(mask[x] for x in self.groups[gi]) else 0)
 
     def apply(self, mask, outcomes):
-        """outcomes: dict block -> tuple of per-factor outcomes (only for active blocks at a refresh) or None.
-        returns None or ('value', block, factor) / ('tolerance', block)."""
-        if not any(mask):
-            return None
-        self.t += 1
-        if outcomes is None:
-            return None
-        for b in range(self.nb):
-            if not mask[b]:
+        """outcomes: dict block -> tuple of per-factor outcomes (only for blocks that are refreshed) or None.
+        returns None or ('value', block, factor) / ('tolerance', block).  Groups are processed in order; the first
+        raise ends the step."""
+        refreshing = self.refreshing_blocks(mask)
+        for gi, g in enumerate(self.groups):
+            if not any(mask[b] for b in g):
                 continue
-            oc = outcomes[b]
-            for f, o in enumerate(oc):
-                if o in ("nan", "inf"):
-                    return ("value", b, f)
-            if all(o == "ok" for o in oc):
-                self.c[b] = 0
-            else:
-                self.c[b] += 1
-                if self.c[b] > self.tol:
-                    return ("tolerance", b)
+            self.tg[gi] += 1
+            if outcomes is None:
+                continue
+            for b in g:
+                if b not in refreshing or b not in outcomes:
+                    continue
+                oc = outcomes[b]
+                for f, o in enumerate(oc):
+                    if o in ("nan", "inf"):
+                        return ("value", b, f)
+                if all(o == "ok" for o in oc):
+                    self.c[b] = 0
+                else:
+                    self.c[b] += 1
+                    if self.c[b] > self.tolb[b]:
+                        return ("tolerance", b)
         return None
 
 
 def outcome_vectors(model, mask, alphabet, restricted=False):
     per_block = []
+    refreshing = model.refreshing_blocks(mask)
     for b in range(model.nb):
-        if not mask[b]:
+        if b not in refreshing:
             per_block.append([None])
         elif restricted:
             per_block.append([("ok",) * model.nf[b], ("raise",) + ("ok",) * (model.nf[b] - 1)])
@@ -156,6 +188,15 @@ def work(tier, seed):
             for tol in (0, 1):
                 add(kind, tol, 1, SHAPES3, 3, ["ok", "raise"], restricted=True, tag="3p-r")
             add(kind, 0, 2, SHAPES2, 3, ["ok", "raise", "nan", "inf"], tag="value-f2")
+    # two parameter groups with different tolerances (and hence separate step counters / schedules)
+    for kind in kinds:
+        for tol0, tol1 in ((0, 2), (2, 0), (1, 0)):
+            pc0 = ["shampoo", {"tol": tol0}] if kind == "shampoo" else ["soap", {"tol": tol0, "method": kind[5:]}]
+            pc1 = ["shampoo", {"tol": tol1}] if kind == "shampoo" else ["soap", {"tol": tol1, "method": kind[5:]}]
+            cfg = mk_cfg(kind, tol0, 1, SHAPES2, seed)
+            cfg["groups"] = [{"params": [0], "over": {}}, {"params": [1], "over": {"precond": pc1}}]
+            for m in seq.all_masks(2):
+                units.append({"cfg": cfg, "depth": 3 if tier == "quick" else 4, "alphabet": ["ok", "raise"], "first": m, "restricted": False, "tag": "groups"})
     # poisoned gradients (NaN / Inf) - factor matrix non-finite at a refresh
     for kind in kinds:
         units.append({"cfg": mk_cfg(kind, 1, 1, SHAPES2, seed), "poison": True, "depth": 3 if tier == "quick" else 4})
@@ -302,15 +343,14 @@ def run_history(cfg, hist, expected_final, poison=None):
                         params[poison[1]].grad.view(-1)[0] = float(poison[2])
             # expected factor matrices after this step's accumulation
             will_refresh = model.will_refresh(mask)
-            t_next = model.t + (1 if any(mask) else 0)
-            bc2 = (1.0 - beta2 ** t_next) if (beta2 < 1.0) else 1.0
             for b in range(nb):
                 if mask[b]:
                     G = params[b].grad.detach().double().numpy()
                     for k in range(G.ndim):
                         gram = mode_gram(G, k)
                         L[(b, k)] = beta2 * L[(b, k)] + (1 - beta2) * gram if beta2 != 1.0 else L[(b, k)] + gram
-            inj.expected = {key: (v if soap else v / bc2) for key, v in L.items()}
+            bc2b = {b: ((1.0 - beta2 ** model.next_t(b, mask)) if (beta2 < 1.0) else 1.0) for b in range(nb)}
+            inj.expected = {key: (v if soap else v / bc2b[key[0]]) for key, v in L.items()}
             inj.script = {}
             if will_refresh and oc is not None:
                 for bs, o in oc.items():
@@ -343,9 +383,12 @@ def run_history(cfg, hist, expected_final, poison=None):
                 msgs.append(f"{where}: raised {raised}, model expects {exp}")
             # --- parameters untouched when the step raised
             if raised is not None:
+                # parameters of the group whose refresh raised (and of the groups after it) must be untouched;
+                # groups processed before it have legitimately completed their step
+                first_gi = model.gof[exp[1]] if exp is not None else 0
                 for b in range(nb):
-                    if not bit_equal(params[b].detach(), before_p[b]):
-                        msgs.append(f"{where}: step raised {raised[0]} error but parameter {b} was modified")
+                    if model.gof[b] >= first_gi and not bit_equal(params[b].detach(), before_p[b]):
+                        msgs.append(f"{where}: step raised {raised[0]} error but parameter {b} (same or later group) was modified")
             # --- stored matrices: finite; failed / inactive => bit-unchanged; successful => the routine's result
             done = {}
             for key, o, out in inj.calls:
